@@ -148,8 +148,29 @@ def oper_harness(tier='quick'):
     h.pre = pre
     return h
 
+def unary_harness(l):
+    idx, ct, code, bits, signed, isf = TYPES[l]
+    rx = r"Boxed_Number::oper\(chaiscript::Operators::Opers, chaiscript::Boxed_Value const&\)::'lambda'\(auto const&\)::operator\(\)<%s>\(auto const&\) const$" % DEM[l]
+    prom = l if (isf or bits >= 32) else 'int32'
+    pidx, pct, pcode, pbits, psigned, pisf = TYPES[prom]
+    field = {'int32': 'i32', 'uint32': 'u32', 'int64': 'i64', 'uint64': 'u64', 'float': 'f', 'double': 'd', 'ldouble': 'ld'}[prom]
+    irk = {'float': 'float', 'double': 'double', 'ldouble': 'x86_fp80'}
+    d = {'UNARY': core.csym(FAM, rx), 'LT': ct if not isf else {'float': 'float', 'double': 'double', 'ldouble': 'long double'}[l], 'PT': pct if not pisf else {'float': 'float', 'double': 'double', 'ldouble': 'long double'}[prom],
+         'K_P': 'K_' + prom, 'P_FIELD': field, 'IS_FLOAT': int(isf), 'P_SIGNED': int(psigned and not pisf), 'L_SIGNED': int(signed and not isf and bits >= 32), 'VERIF_UF_ARITH': 1}
+    if isf:
+        d['NEG(x)'] = '__VERIF_FNEG_%s(x)' % irk[l]; d['INC(x)'] = '__VERIF_FADD_%s((x), 1.0)' % irk[l]; d['DEC(x)'] = '__VERIF_FADD_%s((x), -1.0)' % irk[l]; d['E_NOT'] = 'e_plus'
+    else:
+        u = 'uint%d_t' % pbits; ul = 'uint%d_t' % bits
+        d['NEG(x)'] = '((%s)(0 - (%s)(x)))' % (pct, u); d['INC(x)'] = '((%s)((%s)(x) + 1))' % (ct, ul); d['DEC(x)'] = '((%s)((%s)(x) - 1))' % (ct, ul); d['E_NOT'] = 'e_not'
+        d['P_MIN'] = '((%s)((%s)1 << %d))' % (pct, u, pbits - 1)
+        if signed and bits >= 32: d['L_MAX'] = '((%s)(((%s)1 << %d) - 1))' % (ct, ul, bits - 1); d['L_MIN'] = '((%s)((%s)1 << %d))' % (ct, ul, bits - 1)
+    wit = ('witness: in place', 'witness: value', 'witness: const refused', 'witness: refused')
+    h = Harness('A5.unary<%s>' % l, FAM, [rx], 'c05_unary.c', stubs=[r'chaiscript::const_var', r'bad_any_cast::bad_any_cast', r'chaiscript::Boxed_Value::~Boxed_Value'], shapes=[dict(d, _tag='all-ops', _witness=wit)], opts=['--unwind', '4'], timeout=240, mem_gb=6,
+                inputs=['a', 'op', 'is_const'], note='every value of the operand type, all 33 operator codes, const or mutable operand')
+    return h
+
 def harnesses(tier):
-    hs = [oper_harness(tier)]
+    hs = [oper_harness(tier)] + [unary_harness(l) for l in ALL_TYPES]
     types = QUICK_TYPES if tier == 'quick' else ALL_TYPES
     for l in types:
         for r in types:
